@@ -62,7 +62,7 @@ class _RequestHandler:
         self.logger.info("<= [%s]: %s", client_address, data)
         try:
             response = {}
-            request = json.loads(data)
+            request = self._parse(data)
             self.logger.debug("Delivering request")
             response = self.protocol.handle_request(request)
             self.logger.debug("Got response: %s", response)
@@ -85,6 +85,16 @@ class _RequestHandler:
             success = self._reply(wfile, output)
             if success:
                 self.logger.info("=> [%s]: %s", client_address, output)
+
+    def _parse(self, data):
+        try:
+            return json.loads(data)
+        except (ValueError, RecursionError) as e:
+            # Not every malformed document makes json.loads raise a JSONDecodeError:
+            # an integer literal beyond the interpreter's digit limit raises a plain
+            # ValueError and a deeply nested document raises a RecursionError.
+            # Report all of them as what they are: format errors.
+            raise json.decoder.JSONDecodeError(str(e), "", 0)
 
     def _reply(self, wfile, output):
         try:
